@@ -133,7 +133,24 @@ class World(object):
                     snap[full[len(self.root) + 1:]] = f.read()
         return snap
 
+    def hardlink(self, rel, suffix=".lnk"):
+        """Give the file a second name (a hard link), as a backup tool or a vendoring script would."""
+        src, dst = self.path(rel), self.path(rel + suffix)
+        if os.path.isfile(src) and not os.path.exists(dst):
+            os.link(src, dst)
+            if not hasattr(self, "hardlinks"):
+                self.hardlinks = {}
+            self.hardlinks[rel] = rel + suffix
+
     def restore(self, snap):
+        self._restore(snap)
+        # names that were hard links of one file and still hold the same bytes are one file again
+        for a, b in sorted(getattr(self, "hardlinks", {}).items()):
+            if a in snap and b in snap and snap[a] == snap[b]:
+                _orig["remove"](self.path(b))
+                os.link(self.path(a), self.path(b))
+
+    def _restore(self, snap):
         for name in os.listdir(self.root):
             full = os.path.join(self.root, name)
             if os.path.isdir(full) and not os.path.islink(full):
